@@ -1,19 +1,21 @@
 #!/bin/bash
 # Confirms a seeded change in a scratch worktree at /repo's HEAD:
-#   tools/confirm_seeded.sh <dir with patch.diff and demo> <demo file> <target dir in tree> <go test args...>
-# e.g. tools/confirm_seeded.sh /tmp/wt/C02/_out/A demo_test.go . -run TestC02DemoA .
+#   tools/confirm_seeded.sh <dir with patch.diff and *_test.go demo files> <target dir in tree> <go test args...>
+# e.g. tools/confirm_seeded.sh /tmp/wt/C02/_out/A . -run TestC02DemoA .
 set -u
 export GOFLAGS=-mod=mod GOPROXY=off GOSUMDB=off GOTOOLCHAIN=local
-src=$(realpath "$1"); demo=$2; target=$3; shift 3
+src=$(realpath "$1"); target=$2; shift 2
 wt=/tmp/wt/confirm
 git -C /repo worktree remove --force $wt >/dev/null 2>&1
 git -C /repo worktree add -q --detach $wt HEAD || exit 3
 cd $wt
-cp "$src/$demo" "$target/zz_$demo"
-if go test -vet=off -count=1 "$@" >/tmp/confirm.log 2>&1; then echo "demo without change: PASS"; else echo "demo without change: FAIL (bad demo)"; tail -5 /tmp/confirm.log; fi
+putdemo() { for f in "$src"/*_test.go; do cp "$f" "$target/zz_$(basename $f)"; done; }
+rmdemo() { rm -f "$target"/zz_*_test.go; }
+putdemo
+if timeout 600 go test -vet=off -count=1 "$@" >/tmp/confirm.log 2>&1; then echo "demo without change: PASS"; else echo "demo without change: FAIL (bad demo)"; tail -5 /tmp/confirm.log; fi
+rmdemo
 if ! git apply "$src/patch.diff"; then echo "patch does not apply to HEAD"; fi
-rm "$target/zz_$demo"
 if go test -vet=off -count=1 ./... >/tmp/confirm.log 2>&1; then echo "suite with change: PASS ($(grep -c '^ok' /tmp/confirm.log) packages ok)"; else echo "suite with change: FAIL"; grep FAIL /tmp/confirm.log | head -3; fi
-cp "$src/$demo" "$target/zz_$demo"
-if go test -vet=off -count=1 "$@" >/tmp/confirm.log 2>&1; then echo "demo with change: PASS (change not demonstrated)"; else echo "demo with change: FAIL (as required)"; grep -m2 -i 'fail\|error\|---' /tmp/confirm.log | cut -c1-200; fi
+putdemo
+if timeout 600 go test -vet=off -count=1 "$@" >/tmp/confirm.log 2>&1; then echo "demo with change: PASS (change not demonstrated)"; else echo "demo with change: FAIL (as required)"; grep -m2 -i 'fail\|error\|---' /tmp/confirm.log | cut -c1-200; fi
 cd /; git -C /repo worktree remove --force $wt
